@@ -228,6 +228,12 @@ func Apply(l *Live, s *State, ev Event, tpls Templates) *StepOut {
 			setReady(p, false)
 			must(in.Status().Update(ctx, p))
 		}
+	case "quarantine":
+		p := getPod(in, ns, name)
+		if p != nil {
+			delete(p.Labels, v1.ExtendedDaemonSetNameLabelKey)
+			must(in.Update(ctx, p))
+		}
 	case "unschedulable":
 		p := getPod(in, ns, name)
 		if p != nil {
